@@ -15,6 +15,7 @@ import (
 	"errors"
 	"fmt"
 	"io"
+	"log"
 	"net"
 	"net/http"
 	"net/http/httptest"
@@ -44,9 +45,10 @@ import (
 // ---- case ------------------------------------------------------------------
 
 type caseT struct {
-	Transport string `json:"transport"` // inproc | http-rt | http-loopback | https | https-h2 | (grpc-go reference, internal)
-	Op        string `json:"op"`        // unary | bidi | server-stream | client-stream
-	Creds     string `json:"creds"`     // none | nil | empty | one | overlap | both | error
+	Transport string `json:"transport"`      // inproc | http-rt | http-loopback | https | https-h2 | (grpc-go reference, internal)
+	Op        string `json:"op"`             // unary | bidi | server-stream | client-stream
+	Host      string `json:"host,omitempty"` // how the base URL names the server: v4 | v4-noport | v6 | v6-long | v6-noport (HTTP transports only)
+	Creds     string `json:"creds"`          // none | nil | empty | one | overlap | both | error
 	Require   bool   `json:"require_transport_security"`
 	CallerMD  string `json:"caller_md"` // none | some
 	PeerOpt   bool   `json:"peer_option"`
@@ -215,6 +217,9 @@ func (e *env) ServeHTTP(w http.ResponseWriter, r *http.Request) {
 	h.ServeHTTP(w, r)
 }
 
+// connections abandoned when a case's transport is closed are not news
+var quiet = log.New(io.Discard, "", 0)
+
 func (e *env) server(kind string) *httptest.Server {
 	if s := e.servers[kind]; s != nil {
 		return s
@@ -222,11 +227,16 @@ func (e *env) server(kind string) *httptest.Server {
 	var s *httptest.Server
 	switch kind {
 	case "http-loopback":
-		s = httptest.NewServer(e)
+		s = httptest.NewUnstartedServer(e)
+		s.Config.ErrorLog = quiet
+		s.Start()
 	case "https":
-		s = httptest.NewTLSServer(e)
+		s = httptest.NewUnstartedServer(e)
+		s.Config.ErrorLog = quiet
+		s.StartTLS()
 	case "https-h2":
 		s = httptest.NewUnstartedServer(e)
+		s.Config.ErrorLog = quiet
 		s.EnableHTTP2 = true
 		s.StartTLS()
 	}
@@ -237,7 +247,33 @@ func (e *env) server(kind string) *httptest.Server {
 	return s
 }
 
-const rtBase = "http://192.0.2.9:8080/"
+// hostFor spells the server's address in the base URL. The IPv6 spellings do
+// not need an IPv6 interface: the transport dials the real listener whatever
+// the URL says (or there is no network at all, http-rt).
+func hostFor(kind, ip4, port string) string {
+	switch kind {
+	case "", "v4":
+		return ip4 + ":" + port
+	case "v4-noport":
+		return ip4
+	case "v6":
+		return "[::1]:" + port
+	case "v6-long":
+		return "[0:0:0:0:0:0:0:1]:" + port
+	case "v6-noport":
+		return "[::1]"
+	}
+	panic("bad host kind " + kind)
+}
+
+func (o *obsT) setWant(u *url.URL) {
+	o.BaseURL = u.String()
+	o.wantHost, o.wantPort = u.Hostname(), u.Port()
+	o.portGiven = o.wantPort != ""
+	if !o.portGiven {
+		o.wantPort = map[string]string{"http": "80", "https": "443"}[u.Scheme]
+	}
+}
 
 type obsT struct {
 	Err        string      `json:"err,omitempty"`
@@ -251,11 +287,14 @@ type obsT struct {
 	CPeerSet   bool        `json:"client_peer_set"`
 	CPeerAddr  string      `json:"client_peer_addr,omitempty"`
 	CPeerAuth  string      `json:"client_peer_auth,omitempty"`
-	WantAddr   string      `json:"server_addr,omitempty"`
-	CredCalls  [2]int64    `json:"cred_calls_require_get"`
-	CredURI    string      `json:"cred_uri,omitempty"`
-	Panic      string      `json:"panic,omitempty"`
-	Reply      string      `json:"reply,omitempty"`
+	BaseURL    string      `json:"base_url,omitempty"`
+	wantHost   string
+	wantPort   string
+	portGiven  bool
+	CredCalls  [2]int64 `json:"cred_calls_require_get"`
+	CredURI    string   `json:"cred_uri,omitempty"`
+	Panic      string   `json:"panic,omitempty"`
+	Reply      string   `json:"reply,omitempty"`
 	hPeerNil   bool
 	err        error
 }
@@ -292,8 +331,12 @@ func run(e *env, c caseT) (o obsT) {
 			e.mu.Unlock()
 			srv.ServeHTTP(w, r)
 		}))}
-		u, _ := url.Parse(rtBase)
-		o.WantAddr = u.Host
+		u, err := url.Parse("http://" + hostFor(c.Host, "192.0.2.9", "8080") + "/")
+		if err != nil {
+			o.Panic = "checker: " + err.Error()
+			return
+		}
+		o.setWant(u)
 		cc = &httpgrpc.Channel{Transport: crt, BaseURL: u}
 	case "http-loopback", "https", "https-h2":
 		srv := httpgrpc.NewServer()
@@ -307,9 +350,27 @@ func run(e *env, c caseT) (o obsT) {
 		if t, ok := tr.(*http.Transport); ok {
 			t.CloseIdleConnections() // every case gets its own connection (and handshake)
 		}
+		realAddr := ts.Listener.Addr().String()
+		ip4, port, _ := net.SplitHostPort(realAddr)
+		scheme := ts.URL[:strings.Index(ts.URL, "://")]
+		if c.Host != "" && c.Host != "v4" {
+			// same client configuration (root CAs, HTTP/2 setting), but the dialer
+			// goes to the real listener whatever host the URL names
+			t2 := tr.(*http.Transport).Clone()
+			t2.DialContext = func(ctx context.Context, _, _ string) (net.Conn, error) {
+				var d net.Dialer
+				return d.DialContext(ctx, "tcp", realAddr)
+			}
+			tr = t2
+			cleanup = t2.CloseIdleConnections
+		}
 		crt = &countRT{inner: tr}
-		u, _ := url.Parse(ts.URL + "/")
-		o.WantAddr = ts.Listener.Addr().String()
+		u, err := url.Parse(scheme + "://" + hostFor(c.Host, ip4, port) + "/")
+		if err != nil {
+			o.Panic = "checker: " + err.Error()
+			return
+		}
+		o.setWant(u)
 		cc = &httpgrpc.Channel{Transport: crt, BaseURL: u}
 	case "grpc-go":
 		lis := bufconn.Listen(1 << 16)
@@ -549,8 +610,17 @@ func check(c caseT, o obsT) (fs []finding) {
 		switch {
 		case !o.CPeerSet || o.CPeerAddr == "":
 			f.fail, f.detail = "unset", "the grpc.Peer target has no address after the call completed"
-		case o.WantAddr != "" && o.CPeerAddr != o.WantAddr:
-			f.fail, f.detail = "address-mismatch", fmt.Sprintf("grpc.Peer target address %q, server is at %q", o.CPeerAddr, o.WantAddr)
+		case o.wantHost != "":
+			// the address has to split into the base URL's host and port; when the
+			// URL names no port, an address without a port (the URL's host as
+			// written) is accepted as well as host:default-port
+			h, p, err := net.SplitHostPort(o.CPeerAddr)
+			switch {
+			case err == nil && (h != o.wantHost || p != o.wantPort):
+				f.fail, f.detail = "address-mismatch", fmt.Sprintf("grpc.Peer target address %q = host %q port %q, base URL %s names host %q port %q", o.CPeerAddr, h, p, o.BaseURL, o.wantHost, o.wantPort)
+			case err != nil && !(!o.portGiven && (o.CPeerAddr == o.wantHost || o.CPeerAddr == "["+o.wantHost+"]")):
+				f.fail, f.detail = "malformed-address", fmt.Sprintf("grpc.Peer target address %q does not split into host and port (%v); base URL %s names host %q port %q", o.CPeerAddr, err, o.BaseURL, o.wantHost, o.wantPort)
+			}
 		}
 		fs = append(fs, f)
 		if isTLS(c.Transport) {
@@ -583,12 +653,18 @@ func cases(tier string) []caseT {
 	}
 	var out []caseT
 	for _, t := range trs {
-		for _, op := range ops {
-			for _, cred := range crs {
-				for _, cm := range []string{"none", "some"} {
-					for _, po := range []bool{false, true} {
-						for _, ho := range []bool{false, true} {
-							out = append(out, caseT{Transport: t, Op: op, Creds: cred.kind, Require: cred.req, CallerMD: cm, PeerOpt: po, HdrOpt: ho})
+		hosts := []string{""}
+		if t != "inproc" {
+			hosts = []string{"v4", "v4-noport", "v6", "v6-long", "v6-noport"}
+		}
+		for _, host := range hosts {
+			for _, op := range ops {
+				for _, cred := range crs {
+					for _, cm := range []string{"none", "some"} {
+						for _, po := range []bool{false, true} {
+							for _, ho := range []bool{false, true} {
+								out = append(out, caseT{Transport: t, Op: op, Host: host, Creds: cred.kind, Require: cred.req, CallerMD: cm, PeerOpt: po, HdrOpt: ho})
+							}
 						}
 					}
 				}
@@ -605,7 +681,7 @@ func dims(c caseT) [][2]string {
 	if c.Creds != "none" {
 		creds = fmt.Sprintf("%s/require=%v", c.Creds, c.Require)
 	}
-	return [][2]string{{"creds", creds}, {"caller-md", c.CallerMD}, {"peer-opt", fmt.Sprint(c.PeerOpt)}, {"hdr-opt", fmt.Sprint(c.HdrOpt)}}
+	return [][2]string{{"host", c.Host}, {"creds", creds}, {"caller-md", c.CallerMD}, {"peer-opt", fmt.Sprint(c.PeerOpt)}, {"hdr-opt", fmt.Sprint(c.HdrOpt)}}
 }
 
 func guarded(e *env, c caseT) obsT {
@@ -658,7 +734,7 @@ func main() {
 			if c.Transport != "inproc" {
 				continue
 			}
-			c.Transport = "grpc-go"
+			c.Transport, c.Host = "grpc-go", ""
 			o := guarded(e, c)
 			refRuns++
 			for _, f := range check(c, o) {
@@ -732,7 +808,7 @@ func main() {
 		gks = append(gks, k)
 	}
 	sort.Slice(gks, func(i, j int) bool { return groups[gks[i]].order < groups[gks[j]].order })
-	names := []string{"creds", "caller-md", "peer-opt", "hdr-opt"}
+	names := []string{"host", "creds", "caller-md", "peer-opt", "hdr-opt"}
 	for _, gk := range gks {
 		g := groups[gk]
 		ak := gk[:strings.LastIndex(gk, "|")]
@@ -751,7 +827,7 @@ func main() {
 			scope += fmt.Sprintf(" only for %s in {%s};", n, strings.Join(vs, ","))
 		}
 		if scope == "" {
-			scope = " for every credential / caller-metadata / option combination the clause applies to"
+			scope = " for every host spelling / credential / caller-metadata / option combination the clause applies to"
 		}
 		rep.Violation(fp, g.detail+" —"+scope+fmt.Sprintf(" first case %+v", g.first), g.first)
 	}
@@ -764,7 +840,7 @@ func main() {
 		"evaluations":         evals,
 		"distinct_nontrivial": len(distinct),
 		"rule": "full product {in-process, http via recorder RoundTripper, http loopback, https loopback (httptest TLS server + its client transport)" +
-			map[bool]string{true: ", https with HTTP/2", false: ""}[rep.Tier == "thorough"] + "} x ops x credentials {absent, {require security or not} x metadata {nil, empty, one key, overlapping key, both, error}} x caller metadata {absent, {a:[1,2],shared:[caller-v]}} x peer option x header option. " +
+			map[bool]string{true: ", https with HTTP/2", false: ""}[rep.Tier == "thorough"] + "} x base-URL host spelling {IPv4:port, IPv4 without port, [::1]:port, [0:0:0:0:0:0:0:1]:port, [::1] without port; HTTP transports, the dialer always reaches the real listener} x ops x credentials {absent, {require security or not} x metadata {nil, empty, one key, overlapping key, both, error}} x caller metadata {absent, {a:[1,2],shared:[caller-v]}} x peer option x header option. " +
 			"A case is non-trivial when the credential object was actually consulted (its RequireTransportSecurity/GetRequestMetadata call counters are > 0), or the grpc.Peer target was written, or the connection was TLS (so the TLS-info clause of the handler's peer applies); distinct by all case parameters.",
 		"clause_evaluations":          clauseCount,
 		"grpc_go_reference_oracle_ok": refRuns,
